@@ -168,6 +168,52 @@ theorem piv_xor_eq_spec (base piv : Bytes) (n : Nat) (hb : base.length = n) (hp 
     have hi : i < base.length := by omega
     simp [List.getElem_zipIdx, List.getElem?_eq_getElem hi]
 
+/-- … and for a Base IV of **any** length: a shorter one counts as zero-extended on the right, of a longer one only the
+    first `n` octets count — the Partial IV always lands in the low-order octets *of the nonce*, none of it is cut off -/
+theorem piv_xor_eq_spec_any_base (base piv : Bytes) (n : Nat) (hp : piv.length ≤ n) :
+    xorIV base piv n = .ok (specContextIv base piv n) := by
+  unfold xorIV specContextIv
+  have : ¬ piv.length > n := by omega
+  simp only [this, if_false, Res.ok.injEq]
+  apply List.ext_getElem
+  · simp; omega
+  · intro i h1 h2
+    simp only [List.length_map, List.length_zipIdx, List.length_append, List.length_replicate] at h1
+    simp only [List.getElem_map, List.getElem_zipIdx, List.getElem_zipWith, Nat.zero_add]
+    by_cases hi : i < base.length
+    · simp [List.getElem?_eq_getElem hi, List.getElem_append_left hi]
+    · have hge : base.length ≤ i := by omega
+      rw [List.getElem?_eq_none hge, List.getElem_append_right hge]
+      simp
+
+/-- a Partial IV that differs anywhere gives another nonce, whatever the Base IV's length (no octet of it is dropped) -/
+theorem piv_xor_injective (base piv piv' : Bytes) (n : Nat) (hl : piv.length = piv'.length) (hp : piv.length ≤ n)
+    (h : xorIV base piv n = xorIV base piv' n) : piv = piv' := by
+  rw [piv_xor_eq_spec_any_base base piv n hp, piv_xor_eq_spec_any_base base piv' n (by omega)] at h
+  simp only [Res.ok.injEq, specContextIv] at h
+  apply List.ext_getElem hl
+  intro i h1 h2
+  have hlen : (List.zipWith (· ^^^ ·) (List.replicate (n - piv.length) 0 ++ piv) (base ++ List.replicate (n - base.length) 0)).length = n := by
+    simp; omega
+  have hj : n - piv.length + i < n := by omega
+  have e : (List.zipWith (· ^^^ ·) (List.replicate (n - piv.length) 0 ++ piv) (base ++ List.replicate (n - base.length) 0))[n - piv.length + i]? =
+      (List.zipWith (· ^^^ ·) (List.replicate (n - piv'.length) 0 ++ piv') (base ++ List.replicate (n - base.length) 0))[n - piv.length + i]? := by rw [h]
+  rw [List.getElem?_eq_getElem (by rw [hlen]; exact hj), List.getElem?_eq_getElem (by
+    have : (List.zipWith (· ^^^ ·) (List.replicate (n - piv'.length) 0 ++ piv') (base ++ List.replicate (n - base.length) 0)).length = n := by
+      simp; omega
+    rw [this]; exact hj)] at e
+  simp only [Option.some.injEq, List.getElem_zipWith] at e
+  have e1 : (List.replicate (n - piv.length) (0 : UInt8) ++ piv)[n - piv.length + i]'(by simp; omega) = piv[i] := by
+    rw [List.getElem_append_right (by simp)]; simp
+  have e2 : (List.replicate (n - piv'.length) (0 : UInt8) ++ piv')[n - piv.length + i]'(by simp; omega) = piv'[i] := by
+    rw [List.getElem_append_right (by simp; omega)]; simp [hl]
+  rw [e1, e2] at e
+  have key : ∀ a b c : UInt8, a ^^^ c = b ^^^ c → a = b := by
+    intro a b c hh
+    have := congrArg (· ^^^ c) hh
+    simpa [UInt8.xor_assoc] using this
+  exact key _ _ _ e
+
 /-- **a random nonce is published**: when the caller gave neither IV nor Partial IV, the nonce handed to the AEAD
     is the drawn block `rnd`, and the unprotected IV header of the produced message holds exactly it -/
 theorem random_nonce_published (m : Msg) (e : Encryptor) (ext : Option Bytes) (rnd : Bytes) (m' : Msg)
@@ -282,5 +328,8 @@ theorem random_only_without_iv (u : CMap) (key : KeyView) (n : Nat) (h : selectN
 example : specContextIv [1, 2, 3, 4] [0xff] 4 = [1, 2, 3, 0xfb] := by decide
 example : xorIV [1, 2, 3, 4] [0xff] 4 = .ok [1, 2, 3, 0xfb] := by decide
 example : xorIV [1, 2, 3, 4] [1, 2, 3, 4, 5] 4 = .panic "xorIV-slice" := by decide
+-- a Base IV longer than the nonce: cut to the nonce size, the Partial IV in the nonce's last octet
+example : xorIV [1, 2, 3, 4, 5, 6] [0xff] 4 = .ok [1, 2, 3, 0xfb] := by decide
+example : xorIV [1, 2] [0xff] 4 = .ok [1, 2, 0, 0xff] := by decide
 
 end Cose.Props.C06
